@@ -75,6 +75,8 @@ structure PointOps (P : Type) where
   containsPoint : Int → Int → Bool
   /-- `ellipticcurve.PointJacobi(curve, x, y, 1, n)` (no check, no reduction) -/
   mkPoint : Int → Int → P
+  /-- `A if isinstance(A, PointJacobi) else PointJacobi.from_affine(A)` (`from_public_point`) -/
+  fromAffine : P → P
 
 variable {P : Type}
 
@@ -198,6 +200,7 @@ def baselen (ops : PointOps P) : Nat := Util.orderlen ops.order.toNat
 
 /-- `VerifyingKey.from_public_point(point, curve, hashfunc, validate_point)`: the key *is* its point -/
 def fromPublicPoint (ops : PointOps P) (point : P) (validate : Bool := true) : Res P := do
+  let point := ops.fromAffine point
   if (← publicKeyCheck ops point validate) then .ok point else .error .malformedPoint
 
 /-- the `try … except (der.UnexpectedDER, MalformedSignature)` of `verify_digest` -/
